@@ -83,6 +83,28 @@ def _basis_worker(c):
             d, n2 = _normal_rec(V, _unit(nrm4))
             out.append({'ev': 'basis', 'cell': 'hexagonal4', 'hkl': hkl, 'cut': c['cut'], 'uvws': ui, 'ongrid': ok1 and ok2, 'four': True,
                         'uvtw3': t3, 'd': d, 'n2': n2, 's': S16, 'v': I3})
+        # the plane given relative to a CENTRED conventional cell while the cell supplied is its primitive cell (keyword conventional_setting):
+        # the vectors come back in primitive indices; doubled and expressed in conventional indices they are integer vectors again and the
+        # same record form applies (zone law against the conventional (hkl), normal against the conventional cell vectors)
+        if c['cell'] in ('cubic', 'tetragonal', 'orthorhombic'):
+            import zlib
+            from atomman.tools import miller
+            setting = 'fiabc'[zlib.crc32(repr((c['cell'], hkl, c['cut'])).encode()) % 5]
+            lat = miller.vector_primitive_to_conventional(np.identity(3), setting)      # rows: primitive vectors in conventional indices
+            lat2, oklat = to_int(lat * 2, 1, tol=1e-12)
+            if not oklat or abs(abs(np.linalg.det(lat)) - {'f': .25, 'i': .5}.get(setting, .5)) > 1e-12:
+                raise RuntimeError('unexpected primitive lattice for setting %s' % setting)
+            pbox = am.Box(vects=lat @ V)
+            try:
+                uvp, nrmp = free_surface_basis(hkl, box=pbox, cutboxvector=cutname, conventional_setting=setting, return_planenormal=True)
+            except AssertionError:
+                uvp = None              # documented refusal of the bounded search
+            if uvp is not None:
+                up, okp = to_int(uvp, 1, tol=1e-9)
+                uc2 = (np.array(up) @ np.array(lat2)).tolist()
+                d, n2 = _normal_rec(V, _unit(nrmp))
+                out.append({'ev': 'basis', 'cell': c['cell'] + ':' + setting, 'hkl': hkl, 'cut': c['cut'], 'uvws': uc2, 'ongrid': okp, 'four': False, 'uvtw3': [],
+                            'd': d, 'n2': n2, 's': S16, 'v': I3})
     except Exception as e:
         return ('viol', 'free_surface_basis raised %s' % excname(e), repr(e), c)
     return ('ok', out)
@@ -163,7 +185,7 @@ def run(ctx):
         uv = np.array(fs.uvws)[:, :3] if np.array(fs.uvws).shape[1] == 3 else np.array([[r_[0] - r_[2], r_[1] - r_[2], r_[3]] for r_ in fs.uvws])
         detuvw = int(round(abs(np.linalg.det(uv))))
         nshift = len(fs.shifts)
-        for si in range(nshift):
+        for si in [int(x) for x in rng.permutation(nshift)]:          # not ascending: index 0 is also asked for after a non-zero one, on the same object
             mults = [int(rng.integers(1, 3)), int(rng.integers(1, 3)), int(rng.integers(1, 3))]
             mults[cut] = int(rng.integers(1, 4))
             kw = {}
@@ -182,6 +204,9 @@ def run(ctx):
             eff = list(mults)
             eff[cut] = int(round((system.box.vects[cut, cut] - kw.get('vacuumwidth', 0.0)) / fs.rcellwidth))
             shift = fs.shift
+            if not np.allclose(shift, np.asarray(fs.shifts)[si], rtol=0, atol=1e-9 * max(1.0, float(np.abs(fs.rcell.box.vects).max()))):
+                ctx.violation('surface(shiftindex=k) on an object used before is built with another shift than offered termination k',
+                              'k=%d shift %s offered %s' % (si, np.round(shift, 6).tolist(), np.round(np.asarray(fs.shifts)[si], 6).tolist()), {'ucell': name, 'hkl': hkl, 'cut': cutname})
             po = (system.atoms.pos - shift) @ fs.transform
             rel = ucell.box.position_cartesian_to_relative(po) * dd
             xi, ok = to_int(rel, 1, tol=1e-6)
